@@ -50,6 +50,9 @@ Check (C16_print_string_lex_spec : forall x rest,
 Check (C16_strip_only_nitrogql : forall model_plugin d,
   directives_placed model_plugin d = true ->
   server_schema model_plugin d = spec_server_schema model_plugin d).
+Check (C16_strip_keeps_order : forall n a m b0,
+  dir_named n m = true -> has_dir n a = false -> has_dir n b0 = false ->
+  drop_dirs n (a ++ m :: b0) = a ++ b0).
 Check (C16_remove_builtins_idempotent : forall d, remove_builtins (remove_builtins d) = remove_builtins d).
 Check (C16_reindent_preserves_spec_value : forall n l0 rest,
   forallb line_ok (l0 :: rest) = true ->
@@ -102,6 +105,7 @@ Print Assumptions C16_opdoc_roundtrip_any_parser.
 Print Assumptions C16_print_string_lex_partial.
 Print Assumptions C16_print_string_lex_spec.
 Print Assumptions C16_strip_only_nitrogql.
+Print Assumptions C16_strip_keeps_order.
 Print Assumptions C16_remove_builtins_idempotent.
 Print Assumptions C16_reindent_preserves_spec_value.
 Print Assumptions C16_write_chunk_lines.
